@@ -77,6 +77,8 @@ pub fn build_guest_tuned(e: &mut Ent, tune: Option<&Tune>) -> Guest {
     }
     // optional timer with an interrupt handler installed through the MES set_handler call
     let use_timer = e.chance(1, 3);
+    // (clock /64 with an interrupt) Some((event vector, TCORA)): the program's end places the event in its last instruction
+    let mut end_event: Option<(u32, u32)> = None;
     let handler_off = 0x1400u32;
     let counter = data + 0x100;
     if use_timer {
@@ -104,6 +106,9 @@ pub fn build_guest_tuned(e: &mut Ent, tune: Option<&Tune>) -> Guest {
         let tcr = cks | if e.chance(1, 2) { 0x08 } else { 0 } | irq_bit;
         emit(&mut c, Insn::MovImm { sz: Sz::B, imm: tcr, d: 14 });
         emit(&mut c, Insn::Store { sz: Sz::B, s: 14, ea: Ea::A8(0x80) });
+        if with_irq && cks == 2 && e.chance(3, 4) {
+            end_event = Some((vec, tcora));
+        }
     }
     let nitems = 2 + e.below(10);
     let mut delay_loops = 0;
@@ -258,6 +263,16 @@ pub fn build_guest_tuned(e: &mut Ent, tune: Option<&Tune>) -> Guest {
             _ => emit(&mut c, Insn::Store { sz: Sz::B, s: 9, ea: Ea::A24(0xffffee) }),      // unmapped write
         }
     }
+    if let (Some((vec, tcora)), false) = (end_event, fails) {
+        // the guest sets the counter a few ticks before its event (compare match A / overflow), so that the request
+        // is raised by one of the last instructions - now and then by the very last one: then it is pending, unmasked,
+        // at the moment PC reaches the exit address (the run ends there all the same)
+        features.push("timer event placed at the end of the program");
+        let d = 1 + e.below(3);
+        let v = if vec == 36 { tcora.wrapping_sub(d) & 0xff } else { (0x100 - d) & 0xff };
+        emit(&mut c, Insn::MovImm { sz: Sz::B, imm: v, d: 14 });
+        emit(&mut c, Insn::Store { sz: Sz::B, s: 14, ea: Ea::A8(0x88) });
+    }
     emit(&mut c, Insn::MovImm { sz: Sz::L, imm: e.below(256), d: 0 }); // exit code
     let exit = c.len() as u32 + 4;
     emit(&mut c, Insn::Jmp(JTarget::Abs(BASE + exit)));
@@ -410,6 +425,8 @@ pub struct BInfo {
     /// the last instruction is the one that crossed a threshold / the total is an exact multiple
     pub sync_on_last: bool,
     pub exact_multiple: bool,
+    /// an interrupt request raised by the program's last instruction is pending when PC reaches the exit address
+    pub irq_pending_at_exit: bool,
 }
 
 /// (B) the accounting of the statement, re-implemented on top of single steps (hooks), in lockstep with
@@ -554,7 +571,8 @@ pub fn run_b(g: &Guest, tag: &str, max_steps: u64) -> Result<(Machine, Final, BI
     }
     let f = Final { result, er: cpu.er, ccr: hooks::ccr(cpu), pc: hooks::pc(cpu), total, msgs: expected };
     let exact_multiple = total > 0 && total % SYNC == 0;
-    Ok((m, f, BInfo { steps, syncs, last_charge, sync_on_last, exact_multiple }))
+    let irq_pending_at_exit = f.result.is_ok() && hooks::pending_interrupts(&m.cpu) > 0 && hooks::ccr(&m.cpu) & 0x80 == 0;
+    Ok((m, f, BInfo { steps, syncs, last_charge, sync_on_last, exact_multiple, irq_pending_at_exit }))
 }
 
 /// Tune the tail so that (variant 0) the program's last instruction is the one that crosses a sync
@@ -876,6 +894,9 @@ pub fn run(ctx: &Ctx) -> i32 {
                         }
                         if info.exact_multiple {
                             st.class("total is an exact multiple of the sync interval");
+                        }
+                        if info.irq_pending_at_exit {
+                            st.class("an unmasked interrupt request raised by the last instruction is pending at the exit address");
                         }
                         if info.syncs >= 1 || has_msg || g.fails {
                             st.nontrivial(key_hash(&g.file), || json!({"features": g.features, "instructions": info.steps, "total_states": fa.total, "messages": fa.msgs.iter().take(8).collect::<Vec<_>>(), "result": format!("{:?}", fa.result)}));
